@@ -220,13 +220,7 @@ def startConnect (w : World) : World :=
   let s := { s with reader := s.reader.reset, rt := s.rt.resetTransport,
                     data := { s.data with outbound := s.data.outbound.armReplay } }
   let w := { w with sess := s, wakes := 0, lastIoStarved := false }
-  let props : List Property :=
-    [{ kind := .MaximumPacketSize, val := .n s.reader.cap },
-     { kind := .SessionExpiryInterval, val := .n s.expiry },
-     { kind := .ReceiveMaximum, val := .n MAX_INBOUND_QOS2 }]
-  let c : Connect := { keepalive := s.rt.configuredKeepaliveMs / 1000, props := .slice props,
-                       clientId := s.clientId, auth := s.auth, will := s.will,
-                       cleanStart := !s.data.sessionPresent }
+  let c : Connect := s.connectPacket
   let (o, res) := s.data.outbound.encodeAt (fun cap _ => encodeConnect cap c)
   let w := w.setOutbound o
   match res with
